@@ -93,7 +93,7 @@ def scenario(cfg_a: dict, cfg_b: dict, ops: list) -> dict:
                         cal.create_checkpoint(folder)
                         wrote = True
                     elif op[0] == "restore":
-                        cal = Calibrator.restore_from_checkpoint(folder, model=twins.ar_model)
+                        cal = Calibrator.restore_from_checkpoint(folder, model=cal.model)
                     elif op[0] == "newrun":
                         cal = twins.build(cfg_b, folder=folder)
                         cal.calibrate(op[1])
@@ -105,7 +105,7 @@ def scenario(cfg_a: dict, cfg_b: dict, ops: list) -> dict:
                 if wrote:
                     ev = [{"e": "variant", "axes": f"live after {label}"}] + deep_obs(cal)
                     try:
-                        back = Calibrator.restore_from_checkpoint(folder, model=twins.ar_model)
+                        back = Calibrator.restore_from_checkpoint(folder, model=cal.model)
                         ev += [{"e": "variant", "axes": f"restored after {label}"}] + deep_obs(back)
                     except Exception as e:  # noqa: BLE001
                         ev += [{"e": "variant", "axes": f"restored after {label}"}, {"e": "crash", "what": f"restore: {type(e).__name__}: {e}"[:200]}]
@@ -155,6 +155,60 @@ def scenarios(tier: str, rng: random.Random) -> list[tuple]:
 
 
 # ------------------------------------------------------------------------------------------------
+def gate_traces() -> list[list[dict]]:
+    """(D) the two gates of a restore (RestoreGates.tla): stored vs given model name on the public entry point, stored vs current
+    schema version on the SQLite loader.  One real restore per request."""
+    import shutil
+    import sqlite3
+    import tempfile
+
+    from black_it.calibrator import Calibrator
+    from black_it.utils import sqlite3_checkpointing as sq
+
+    from . import ckpt
+
+    out = []
+    for given in ("model_A", "model_B", "model_a", "model_A "):
+        folder = tempfile.mkdtemp(prefix="verif-gate-")
+        try:
+            with quiet():
+                ckpt.save(folder, "A", 2, "json")
+
+                def model(theta, N, seed):  # noqa: ARG001, N803
+                    return None
+
+                model.__name__ = given
+                try:
+                    Calibrator.restore_from_checkpoint(folder, model=model)
+                    oc = "object"
+                except Exception as e:  # noqa: BLE001
+                    oc = "refused:model" if "model provided appears to be different" in str(e) else f"other:{type(e).__name__}"
+            out.append([{"b": "json", "stored": "model_A", "given": given, "ver": 0, "code": 0, "outcome": oc}])
+        finally:
+            shutil.rmtree(folder, ignore_errors=True)
+    code = int(sq.SCHEMA_VERSION)
+    for ver in (code, code + 1, code - 1 if code > 0 else code + 2, 0 if code != 0 else 7):
+        folder = tempfile.mkdtemp(prefix="verif-gate-")
+        try:
+            with quiet():
+                ckpt.save(folder, "A", 2, "sqlite")
+                con = sqlite3.connect(folder + "/checkpoint.sqlite")
+                con.execute(f"PRAGMA user_version={int(ver)}")
+                con.commit()
+                con.close()
+                try:
+                    sq.load_calibrator_state(folder)
+                    oc = "object"
+                except sq.SchemaVersionMismatchError:
+                    oc = "refused:schema"
+                except Exception as e:  # noqa: BLE001
+                    oc = f"other:{type(e).__name__}"
+            out.append([{"b": "sqlite", "stored": "model_A", "given": "model_A", "ver": int(ver), "code": code, "outcome": oc}])
+        finally:
+            shutil.rmtree(folder, ignore_errors=True)
+    return out
+
+
 def run(tier: str) -> int:
     chk = Check("C04", tier)
     rng = random.Random(400 + chk.seed)
@@ -219,6 +273,19 @@ def run(tier: str) -> int:
                for o in calcheck.sample_scripts(ops, 60 if tier == "quick" else 600, rng)]
     traces = calcheck.execute(scripts)
     calcheck.validate(chk, traces, relevant={"C04", "C05"})
+    # (D) growth beyond the listed property: the restore gates
+    for cfg in ("MC_RestoreGates.cfg", "MC_RestoreGates_alt.cfg"):
+        rg = tlc.model_check("RestoreGates", cfg, workers=2, deadlock=False)
+        if not rg["ok"]:
+            raise tlc.MachineryError(f"RestoreGates ({cfg}) violates {rg['violated']}")
+        chk.add_mc(rg, "restore gates: no object for another model / schema, no spurious refusal, whatever the order of the two gates")
+    gt = gate_traces()
+    rg = tlc.validate("RestoreGatesTrace", "RestoreGatesTrace.cfg", {"traces": gt})
+    chk.add_validation(rg)
+    chk.extra["restore_gate_requests"] = len(gt)
+    for tid, why in rg["rejected"].items():
+        e = gt[tid - 1][0]
+        chk.violation(f"gate:{e['b']}:{e['outcome'].split(':')[0]}", f"restore gate: {why['why']} ({e})", {"gate": e, "tlc": why})
     chk.evaluations = len(results) + len(flat) + len(traces)
     chk.extra["distinct_nontrivial"] = len({repr(r["hist"]) for r in results}) + len(flat) + len(traces)
     chk.extra["calibrator_scenarios"] = len(scen)
